@@ -795,6 +795,7 @@ class Numpy:
 
     def getitem(self, I, a, idx, node):
         self.note(I)
+        idx = self.open_mesh_to_ix(I, idx, node)
         if isinstance(idx, LibObj) and idx.kind == "ix":
             return self.get_ix(I, a, idx, node)
         if isinstance(idx, NDArr) and idx.kind == "bool":
@@ -998,8 +999,24 @@ class Numpy:
                 _, lst = self.dense(I, pos, "mask positions")
                 return self.setitem(I, a, [int(z3.simplify(zint(v)).as_long()) if not isinstance(v, int) else v for v in lst], value, node)
             raise Unsupported("boolean-mask assignment of an array value")
+        idx = self.open_mesh_to_ix(I, idx, node)
         if isinstance(idx, LibObj) and idx.kind == "ix":
-            raise Unsupported("assignment through np.ix_")
+            # a[np.ix_(rows, cols)] = value : the cross product of the (concrete) index lists receives value[i, j]
+            seqs = idx.fields["seqs"]
+            if len(seqs) != a.ndim or not all(sq.concrete for sq in seqs):
+                raise Unsupported("assignment through np.ix_ with symbolic index lists")
+            import itertools as _it
+            shape = tuple(sq.length for sq in seqs)
+            getter = self.value_getter(I, value, shape, node)
+            for pos in _it.product(*[range(n_) for n_ in shape]):
+                cell = []
+                for d, (sq, kk) in enumerate(zip(seqs, pos)):
+                    nd = zint(a.shape[d])
+                    t = sq.at(z3.IntVal(kk))
+                    I.require("IndexError", z3.And(t >= -nd, t < nd), node)
+                    cell.append(z3.simplify(z3.If(t < 0, t + nd, t)))
+                a.write(lambda vidx, cell=cell: z3.And(*[vi == cc for vi, cc in zip(vidx, cell)]), lambda vidx, pos=pos: getter(tuple(z3.IntVal(x) for x in pos)))
+            return
         parts = self.bool_parts_to_positions(I, self.split_index(I, a, idx), node)
         fancy = [(k, idxseq(I, p, node)) for k, p in enumerate(parts)
                  if not (isinstance(p, (int, SV)) or (isinstance(p, LibObj) and p.kind == "slice") or p is None or isinstance(p, Obj))]
@@ -1080,6 +1097,21 @@ class Numpy:
             full[vpos] = kk
             return getter(tuple(full))
         view.write(cond, val)
+
+    def open_mesh_to_ix(self, I, idx, node):
+        """(rows[:, None], cols[None, :]) - what np.ix_ returns - given as two 2-D integer arrays: the same cross product"""
+        if isinstance(idx, tuple) and len(idx) == 2 and all(isinstance(p, (NDArr, self.np.ndarray)) for p in idx):
+            shp = [tuple(p.shape) for p in idx]
+            kinds = [(p.kind if isinstance(p, NDArr) else ("int" if p.dtype.kind in "iu" else "other")) for p in idx]
+            if all(k == "int" for k in kinds) and len(shp[0]) == 2 and len(shp[1]) == 2 and shp[0][1] == 1 and shp[1][0] == 1 \
+                    and all(isinstance(d, int) for sh in shp for d in sh):
+                def flat(p):
+                    if isinstance(p, NDArr):
+                        _, l = self.dense(I, p, "open mesh")
+                        return [x for row in l for x in row]
+                    return [int(x) for x in p.flatten().tolist()]
+                return LibObj("ix", seqs=[idxseq(I, flat(idx[0]), node), idxseq(I, flat(idx[1]), node)])
+        return idx
 
     def bool_parts_to_positions(self, I, parts, node):
         """a 1-D boolean mask used as ONE component of an index (a[:, mask]) selects the positions where it is true:
@@ -1928,11 +1960,18 @@ class Numpy:
             raise Unsupported(f"reshape order {k.get('order')!r}")
         shp = tuple(args[0]) if len(args) == 1 and isinstance(args[0], (tuple, list)) else tuple(args)
         arr, _ = self.dense(I, a, "reshape order='F'")
-        if not all(isinstance(d, int) and d >= 0 for d in shp):
-            raise Unsupported("reshape order='F' with symbolic or inferred dimensions")
         total = 1
         for d in arr.shape:
             total *= d
+        if list(shp).count(-1) == 1 and all(isinstance(d, int) for d in shp):
+            known = 1
+            for d in shp:
+                known *= d if d != -1 else 1
+            if known == 0 or total % known:
+                I.raise_exc(ValueError, "cannot reshape array: size not divisible")
+            shp = tuple(total // known if d == -1 else d for d in shp)
+        if not all(isinstance(d, int) and d >= 0 for d in shp):
+            raise Unsupported("reshape order='F' with symbolic dimensions")
         t2 = 1
         for d in shp:
             t2 *= d
